@@ -105,6 +105,24 @@ class PropsStream:
                     pid2 = rng.choice([x for x in allowed if x in wire.REPEATABLE] or allowed)
                     case.append(f"alias {NAME_OF[pid2]} {rand_val(rng, pid2)}")
             case.append("pack")
+            if rng.random() < 0.5:
+                # the same object is changed after it was packed - properties removed (del / clear()), others assigned - and
+                # packed again: what reaches the wire is what the object holds NOW
+                for _ in range(rng.randint(1, 3)):
+                    setn = [l.split()[1] for l in case if l.split()[0] in ("set", "setlist")]
+                    x = rng.random()
+                    if x < 0.45 and setn:
+                        case.append(f"del {rng.choice(setn)}")
+                    elif x < 0.65:
+                        case.append("clear")
+                    elif x < 0.72:
+                        case.append(f"del {rng.choice(['Bogus', 'ContentType', 'ResponseTopic'])}")
+                    elif allowed:
+                        pid = rng.choice(allowed)
+                        case.append(f"set {NAME_OF[pid]} {rand_val(rng, pid)}")
+                    if rng.random() < 0.6:
+                        case.append("pack")
+                case.append("pack")
         elif r < 0.7:
             # unpack broker-side encodings (well-formed from the independent encoder, some mutated)
             for _ in range(rng.randint(1, 4)):
@@ -209,6 +227,12 @@ class PropsStream:
                         obs.append("ok " + view(p))
                     except Exception:  # noqa: BLE001
                         obs.append("rejected " + view(p))
+                elif t[0] == "del":
+                    delattr(p, t[1])
+                    obs.append("ok " + view(p))
+                elif t[0] == "clear":
+                    p.clear()
+                    obs.append("ok " + view(p))
                 elif t[0] == "pack":
                     obs.append(hx(bytes(p.pack())))
                 elif t[0] == "unpack":
@@ -273,10 +297,15 @@ class PropsStream:
                         pending.append((pid, v))
                     if pid not in wire.REPEATABLE:
                         pending = [x for x in pending if x[0] != pid][:] + [(pid, vals[-1])]
+            elif t[0] == "del":
+                if o.startswith("ok"):
+                    pending = [x for x in pending if x[0] != ID_OF.get(t[1])]
+            elif t[0] == "clear":
+                pending = []
             elif t[0] == "alias":
                 # assigning to ANOTHER object must not change this one: its view is what the last operation left
                 prev = next((obs[j].split(" ", 1)[1] if " " in obs[j] else "" for j in range(i - 1, -1, -1)
-                             if obs[j].startswith("ok") and case[j].split()[0] in ("set", "setlist", "alias")), "")
+                             if obs[j].startswith("ok") and case[j].split()[0] in ("set", "setlist", "alias", "del", "clear")), "")
                 now_ = o.split(" ", 1)[1] if " " in o else ""
                 if o.startswith(("ok", "rejected")) and now_ != prev:
                     hits.append((i, "alias", f"giving a further {t[1]} value to another Properties object changed this one: {prev[:80]} -> {now_[:80]}"))
